@@ -124,21 +124,8 @@ theorem mint_held (cfg : MintCfg) (blocked : Addr → Bool) (s s' : MintState) (
 /-- The module account's balance never decreases in the BeginBlocker (C11's escrow can only grow). -/
 theorem mint_module_balance_mono (cfg : MintCfg) (blocked : Addr → Bool) (s s' : MintState)
     (hne : cfg.ecoPool ≠ cfg.module) (h : beginBlocker cfg blocked s = .ok s') (d : Denom) :
-    s.bank.bal cfg.module d ≤ s'.bank.bal cfg.module d := by
-  rcases beginBlocker_cases cfg blocked s with ⟨h', _⟩ | ⟨c, amt, hc, _, _, _, h'⟩
-  · rw [h] at h'; cases h'; exact Nat.le_refl _
-  · rw [h] at h'; cases h'
-    have hne' : cfg.module ≠ cfg.ecoPool := fun e => hne e.symm
-    unfold mintTail
-    simp only
-    cases hs : sendModuleToAccount blocked (mintCoins s.bank cfg.module [(cfg.denom, amt)]) cfg.module cfg.ecoPool [(cfg.denom, amt)] with
-    | none => simp only; rw [bal_mintCoins]; omega
-    | some b' =>
-      simp only
-      unfold sendModuleToAccount at hs
-      split at hs
-      · cases hs
-      · rw [bal_sendCoins hs, bal_mintCoins]; simp [hne']
+    s.bank.bal cfg.module d ≤ s'.bank.bal cfg.module d :=
+  beginBlocker_module_mono cfg blocked s s' hne h d
 
 /-- Restart: the step reads nothing but the state (= the committed store: key 0x03 and the bank), so
     running m blocks, committing, and running n more from the committed state is running m+n. -/
